@@ -600,7 +600,12 @@ func (x *Ctx) uint64LoopRule(r *core.Result, rs *core.RuleStat) {
 		mul  *ssa.BinOp
 	}
 	var loops []accLoop
-	for _, b := range fn.Blocks {
+	var allBlocks []*ssa.BasicBlock
+	for _, g := range x.helperClosure(fn) {
+		// the accumulation may sit in a private helper (accumulateDigits(data, p, 18))
+		allBlocks = append(allBlocks, g.Blocks...)
+	}
+	for _, b := range allBlocks {
 		for _, ins := range b.Instrs {
 			phi, ok := ins.(*ssa.Phi)
 			if !ok {
@@ -817,6 +822,9 @@ func (x *Ctx) loopDigitBound(acc *ssa.Phi) int {
 			continue
 		}
 		c, okc := constBig(be.Y)
+		if par, isPar := be.Y.(*ssa.Parameter); !okc && isPar {
+			c, okc = x.constArgEverywhere(par)
+		}
 		sub, isSub := be.X.(*ssa.BinOp)
 		if !okc || !isSub || sub.Op != token.SUB {
 			continue
@@ -839,6 +847,21 @@ func (x *Ctx) isAccOrZero(v ssa.Value, acc *ssa.Phi, seen map[ssa.Value]bool) bo
 	}
 	phi, ok := v.(*ssa.Phi)
 	if !ok {
+		// the result of a private helper all of whose returns carry an accumulated value
+		if ex, isEx := v.(*ssa.Extract); isEx {
+			if c, isCall := ex.Tuple.(*ssa.Call); isCall && x.isPrivateHelper(c.Call.StaticCallee()) {
+				n := 0
+				for _, hb := range c.Call.StaticCallee().Blocks {
+					if ret, isRet := hb.Instrs[len(hb.Instrs)-1].(*ssa.Return); isRet && ex.Index < len(ret.Results) {
+						n++
+						if !x.isAccOrZero(ret.Results[ex.Index], acc, seen) {
+							return false
+						}
+					}
+				}
+				return n > 0
+			}
+		}
 		// val*10+digit of an accumulator
 		if add, ok := v.(*ssa.BinOp); ok && add.Op == token.ADD {
 			if mul, ok := add.X.(*ssa.BinOp); ok && mul.Op == token.MUL {
@@ -919,4 +942,36 @@ func constCond(v ssa.Value) (bool, bool) {
 		}
 	}
 	return false, false
+}
+
+
+// constArgEverywhere: the parameter receives a constant at every call of its function inside the library (all calls
+// static); returns the largest.
+func (x *Ctx) constArgEverywhere(par *ssa.Parameter) (*big.Int, bool) {
+	fn := par.Parent()
+	idx := -1
+	for i, p := range fn.Params {
+		if p == par {
+			idx = i
+		}
+	}
+	node := x.W.CG().Nodes[fn]
+	if idx < 0 || node == nil || len(node.In) == 0 || !x.isPrivateHelper(fn) {
+		return nil, false
+	}
+	var best *big.Int
+	for _, e := range node.In {
+		call, ok := e.Site.(*ssa.Call)
+		if !ok || call.Call.StaticCallee() != fn || idx >= len(call.Call.Args) {
+			return nil, false
+		}
+		c, ok := constBig(call.Call.Args[idx])
+		if !ok {
+			return nil, false
+		}
+		if best == nil || c.Cmp(best) > 0 {
+			best = c
+		}
+	}
+	return best, best != nil
 }
